@@ -129,3 +129,23 @@ Definition run_name_enc (e : fsenc) (r : kstat) : jv :=
        (if wf_kstat r && wf_bytes (k_comm r)
         then JL [ jval (jstr (fs_decode e (k_comm r))); jopt JB (fs_encode e (fs_decode e (k_comm r))) ]
         else jnone) ].
+
+(* name() asked repeatedly on ONE object while the kernel state changes (windows = false) *)
+Inductive statk := SKData | SKGone | SKDenied.
+Definition hist_state (x : kstat * statk * cread) : nstate :=
+  {| ns_stat := match snd (fst x) with
+                | SKData => SData (k_stat (fst (fst x)))
+                | SKGone => SENOENT
+                | SKDenied => SEACCES
+                end;
+     ns_cmd := snd x |}.
+Definition run_name_hist (steps : list (kstat * statk * cread)) : jv :=
+  JL [ JL (map (fun x => JB (k_stat (fst (fst x)))) steps);
+       JL (map (jv_outcome jb) (name_hist false None (map hist_state steps)));
+       JL (map (fun x => match snd (fst x) with
+                         | SKData => if wf_kstat (fst (fst x))
+                                     then jopt (fun b => jval (JB b))
+                                               (spec_name_now {| n_stat := fst (fst x); n_cmd := snd x |})
+                                     else jnone
+                         | _ => jnone
+                         end) steps) ].
